@@ -253,6 +253,10 @@ def hostile_cases(seed, n):
             doc2 = {"settings": {"sections_subgroups": {".text": [".data"], ".data": [".text"]}},
                     "segments": [{"name": "s", "files": [{"path": "a.o", "section_order": {".text": ".data", ".data": ".text"}},
                                                           {"kind": "group", "files": [{"path": "b.o"}]}]}]}
+            if rnd.random() < 0.4:
+                # a loop closed by section_order through a member that is not itself a sub-group key
+                doc2["settings"]["sections_subgroups"] = {".data": [".text"]}
+                doc2["segments"][0]["files"][0]["section_order"] = {".data": ".text"}
             if rnd.random() < 0.5:
                 doc2["settings"]["single_segment_mode"] = True
                 doc2["segments"].append({"name": "t", "files": [{"path": "c.o"}]})
